@@ -1,4 +1,5 @@
 import MioModel.Lemmas.Node
+import MioModel.Lemmas.NodeLive
 /-! # C09 — After stop() the callback is never invoked again and the listener returns -/
 namespace Mio.C09
 open Mio.Node
@@ -153,6 +154,55 @@ theorem sig_thread_terminates (s : St) (hm : MInv s) (hr : s.running = false) (h
   · simp [hr, measureS, hp]
   · simp [measureS, hp]
   · simp [measureS, hp]
+
+
+/-! ## The listener returns: all schedules, both threads, the callback lock included
+
+`Next s' s` is one step of a listener thread (network thread with *any* poll result, signal thread
+with or without a signal arriving, the caller of `for_each_async` dropping its guard) from a started,
+stopped, reachable configuration `s`. -/
+
+theorem stopped_of_reachable (mode : Mode) (c : Nat) (s : St) (h : Reachable mode c s)
+    (hr : s.running = false) (hst : s.pcN ≠ .notStarted) : Stopped s :=
+  ⟨reachable_minv mode c s h, reachable_struct mode c s h, hr, hst⟩
+
+/-- After `stop()`, **every** schedule of the listener's threads is finite: there is no infinite
+sequence of thread steps, whatever the poller and the signal queue keep delivering (`Acc` = all
+descending chains are finite). -/
+theorem stopped_node_every_schedule_finite (mode : Mode) (c : Nat) (s : St) (h : Reachable mode c s)
+    (hr : s.running = false) (hst : s.pcN ≠ .notStarted) : Acc Next s :=
+  acc_stopped _ s (Nat.le_refl _) (stopped_of_reachable mode c s h hr hst)
+
+/-- … and no schedule gets stuck early: as long as one of the two threads has not finished, some
+thread step is enabled (the callback lock is never held by a thread that is gone, and never held
+by nobody while somebody waits). -/
+theorem stopped_node_no_deadlock (mode : Mode) (c : Nat) (s : St) (h : Reachable mode c s)
+    (hr : s.running = false) (hst : s.pcN ≠ .notStarted) (hnf : ¬ Finished s) :
+    ∃ a, ThreadAct a ∧ (step s a).isSome = true :=
+  stopped_progress s (stopped_of_reachable mode c s h hr hst) hnf
+
+/-- Together: from every stopped configuration the two threads reach `done` (the listener call
+returns / the `NodeTask` can be joined). -/
+theorem listener_returns (mode : Mode) (c : Nat) (s : St) (h : Reachable mode c s)
+    (hr : s.running = false) (hst : s.pcN ≠ .notStarted) :
+    ∃ acts s', (∀ a ∈ acts, ThreadAct a) ∧ run s acts = some s' ∧ Finished s' ∧ s'.running = false := by
+  have hacc := stopped_node_every_schedule_finite mode c s h hr hst
+  have hS := stopped_of_reachable mode c s h hr hst
+  clear h hr hst
+  induction hacc with
+  | intro s _ ih =>
+    by_cases hf : Finished s
+    · exact ⟨[], s, by simp, rfl, hf, hS.stopped⟩
+    · obtain ⟨a, ha, hen⟩ := stopped_progress s hS hf
+      obtain ⟨s1, hs1⟩ := Option.isSome_iff_exists.mp hen
+      have hS1 := stopped_step s s1 a hS ha hs1
+      obtain ⟨acts, s', hall, hrun, hfin, hrf⟩ := ih s1 ⟨hS, a, ha, hs1⟩ hS1
+      refine ⟨a :: acts, s', ?_, ?_, hfin, hrf⟩
+      · intro x hx
+        rcases List.mem_cons.mp hx with hx | hx
+        · subst hx; exact ha
+        · exact hall x hx
+      · simp only [run, hs1]; exact hrun
 
 /-! Non-vacuity: the as-found F4 history — one cached event, `stop()` before `for_each()` — on the
 current model: the callback is not invoked and the listener returns; and a signal callback that
